@@ -83,7 +83,7 @@ func checkECPart(part object.Object, rules []netmap.ECRule) error {
 		return errors.New("signed EC part")
 	}
 
-	if part.SessionToken() != nil {
+	if part.SessionToken() != nil || part.SessionTokenV2() != nil {
 		return errors.New("session token detected")
 	}
 
